@@ -269,9 +269,17 @@ func isZeroSlice(v Val) bool { return v.Sh.K == KSlice && v.Sub[0].T == "0" }
 
 func (e *Enc) strEq(a, b string) string {
 	if a == "str_empty" {
-		return fmt.Sprintf("(= (slen %s) 0)", b)
+		a, b = b, a
 	}
 	if b == "str_empty" {
+		if a == "str_empty" {
+			return "true"
+		}
+		// the empty string is the only string of length 0 (ground instance of the axiom)
+		if e.inQuant == 0 && !e.lemmaDone["empty:"+a] {
+			e.lemmaDone["empty:"+a] = true
+			e.assert(fmt.Sprintf("(=> (= (slen %s) 0) (= %s str_empty))", a, a))
+		}
 		return fmt.Sprintf("(= (slen %s) 0)", a)
 	}
 	return fmt.Sprintf("(= %s %s)", a, b)
@@ -487,7 +495,8 @@ func (e *Enc) allocInstr(f *frame, st *State, in *ssa.Alloc) {
 }
 
 type localAlloc struct {
-	in    *ssa.Alloc
+	isSlice bool
+	in    ssa.Value // *ssa.Alloc or *ssa.MakeSlice
 	ref   string
 	names []string
 	esc   []ssa.Instruction
@@ -534,6 +543,39 @@ func escapePoints(a ssa.Value, seen map[ssa.Value]bool) []ssa.Instruction {
 	return out
 }
 
+// sliceEscapePoints: instructions at which a slice made by this activation (or a
+// pointer into its backing array) becomes visible to other code.
+func sliceEscapePoints(a ssa.Value, seen map[ssa.Value]bool) []ssa.Instruction {
+	var out []ssa.Instruction
+	if seen[a] {
+		return nil
+	}
+	seen[a] = true
+	rs := a.Referrers()
+	if rs == nil {
+		return nil
+	}
+	for _, r := range *rs {
+		switch x := r.(type) {
+		case *ssa.DebugRef:
+		case *ssa.IndexAddr:
+			if x.X == a {
+				out = append(out, escapePoints(x, seen)...)
+			} else {
+				out = append(out, r)
+			}
+		case *ssa.Call:
+			if b, ok := x.Call.Value.(*ssa.Builtin); ok && (b.Name() == "len" || b.Name() == "cap") {
+				continue
+			}
+			out = append(out, r)
+		default:
+			out = append(out, r)
+		}
+	}
+	return out
+}
+
 func mayPrecede(x, c ssa.Instruction) bool {
 	xb, cb := x.Block(), c.Block()
 	if xb == cb {
@@ -571,7 +613,11 @@ func (e *Enc) preserveLocals(f *frame, in ssa.Instruction, pre, st *State) {
 	for i := range f.locals {
 		l := &f.locals[i]
 		if !l.done {
-			l.esc = escapePoints(l.in, map[ssa.Value]bool{})
+			if l.isSlice {
+				l.esc = sliceEscapePoints(l.in, map[ssa.Value]bool{})
+			} else {
+				l.esc = escapePoints(l.in, map[ssa.Value]bool{})
+			}
 			l.done = true
 		}
 		escaped := false
@@ -727,6 +773,9 @@ func (e *Enc) makeSlice(f *frame, st *State, in *ssa.MakeSlice) Val {
 	r := e.alloc(st)
 	el := in.Type().Underlying().(*types.Slice).Elem()
 	e.initElems(st, r, el)
+	if !hasArray(shapeOf(el)) {
+		f.locals = append(f.locals, localAlloc{in: in, ref: r, names: leafNames(elemPath(el), shapeOf(el)), isSlice: true})
+	}
 	return Val{Sh: shapeOf(in.Type()), Sub: []Val{intVal(r), intVal("0"), intVal(l), intVal(c)}}
 }
 
